@@ -93,6 +93,43 @@ def step_delete(p0: int, p1: int, p2: int, ti: int, ci: int, tofu_on: bool) -> b
     return _step(p0, p1, p2, 3, ti, ci, tofu_on)
 
 
+def step_warm(w: int, p: int, ci: int, op: int, ti: int, how: int) -> bool:
+    """
+    pre: 0 <= w <= 1 and 0 <= p <= 2 and 0 <= ci <= 4 and 0 <= op <= 3 and 0 <= ti <= 1 and 0 <= how <= 1
+    post: _
+    """
+    # the inductive step again, but on a client that has already talked to the target: whatever the client remembers
+    # from the earlier exchange (memoised verdicts, cached fingerprints) must not outlive a change of the pin
+    from vf.clientrun import CERTS
+    env = Env(True)
+    target = KEYS[ti]
+    env.cert_for[target] = w
+    res0, exc0 = _call(env, 0 if how == 0 else 2, target)
+    if exc0 is not None or res0 is None or env.pins().get(target) != FPS[w]:
+        return V(False)                                   # first contact: pins what was presented
+    db = env.client.tofu_db
+    if p == 0:
+        db.revoke(target[0], target[1])
+    else:
+        db.trust(target[0], target[1], CERTS[p - 1])
+    before = env.pins()
+    pinned = before.get(target)
+    if pinned != (None if p == 0 else FPS[p - 1]):
+        return V(False)
+    env.cert_for[target] = CERT[ci]
+    res, exc = _call(env, op, target)
+    after = env.pins()
+    presented = CERT[ci]
+    if not isinstance(presented, int):
+        return V(res is None and exc is not None and after == before)
+    fp = FPS[presented]
+    if pinned is not None and pinned != fp:
+        return V(isinstance(exc, CertificateChangedError) and res is None and after == before)
+    if pinned is None:
+        return V(res is not None and exc is None and after.get(target) == fp and res.status == 20)
+    return V(res is not None and exc is None and after == before and res.status == 20)
+
+
 def _apply(env, model, a, key, cert):
     """one operation on the real client/store and on the abstract pin-map ``model``; returns ok"""
     c = env.client
@@ -193,6 +230,10 @@ FN = ["GeminiClient.get", "_get_single", "_get_with_redirects", "upload", "delet
       "get_certificate_fingerprint", "CertificateChangedError"]
 STUBS = ["MiniLoop.create_connection -> scripted peer", "ModelSQL", "FakeDatetime"]
 OBLIGATIONS = [
+    Ob("step_warm", step_warm, quick=600, thorough=1800,
+       symbolic="a client that already fetched from / uploaded to the target (certificate w accepted and pinned), then the pin is "
+                "revoked or replaced through the store, then any operation with any presented certificate (2 x 3 x 5 x 4 x 2 x 2)",
+       functions=FN, stubs=STUBS),
     Ob("step_get", step_get, quick=500, thorough=1200,
        symbolic="entry point: get without redirect following; pins of 3 host:port keys (none / cert A / B), target key, "
                 "presented certificate (A / B / C / an expired one / unparseable DER / no ssl_object / no certificate), TOFU on/off",
